@@ -1,6 +1,6 @@
 (* C13 - specification side (definitions only): what a well-formed response header / first record
    is, the initial Inbound states, server zone versions and the response streams a server sends. *)
-From DV Require Import Base.Prelude Model.XfrM.
+From DV Require Import Base.Prelude Model.XfrM Proofs.XfrSets.
 
 (* a response message whose header is acceptable: NOERROR, and no question or the right one *)
 Definition header_ok (rdt : Z) (w : wmsg) : Prop :=
@@ -15,3 +15,73 @@ Definition ixfr_init (z : zone) (ser : Z) (udp : bool) : st :=
 Definition axfr_init (z : zone) (ser : option Z) : st :=
   mkSt z None tAXFR false (match ser with Some sv => sv | None => 0 end) false None false false false.
 
+
+(* ---- the server side ---- *)
+Definition soakey : key := (origin, tSOA, 0).
+
+(* one version of the server's zone: its SOA (TTL, rdata) and everything else *)
+Record version := mkV { v_ttl : Z; v_soa : Z; v_rest : zone }.
+
+Definition zone_of (v : version) : zone := (soakey, (v_ttl v, [v_soa v])) :: v_rest v.
+Definition v_serial (v : version) : Z := v_soa v mod two32.
+
+Definition ttl_ok (t : Z) : Prop := 0 <= t <= 2147483647.
+
+(* an RRset of the zone other than the SOA: owner at or below the origin, a non-empty set *)
+Definition entry_wf (ke : key * entry) : Prop :=
+  let '((n, t, c), (ttl, ds)) := ke in
+  0 <= n /\ t <> tSOA /\ ttl_ok ttl /\ ds <> [] /\ ssorted ds.
+
+Definition rest_wf (z : zone) : Prop := NoDup (map fst z) /\ Forall entry_wf z.
+Definition version_wf (v : version) : Prop := ttl_ok (v_ttl v) /\ rest_wf (v_rest v).
+
+Definition soa_rr (v : version) : rr := mkRR origin cIN tSOA 0 (v_ttl v) (v_soa v).
+
+Definition rrs_of_entry (ke : key * entry) : list rr :=
+  let '((n, t, c), (ttl, ds)) := ke in map (fun d => mkRR n cIN t c ttl d) ds.
+
+(* all records of a zone (without the SOA), RRset by RRset *)
+Definition body (z : zone) : list rr := flat_map rrs_of_entry z.
+
+Definition rkey (r : rr) : key := (r_name r, r_type r, r_covers r).
+
+Definition has_rr (z : zone) (r : rr) : bool :=
+  match look z (rkey r) with
+  | Some (ttl, ds) => (ttl =? r_ttl r) && mem (r_data r) ds
+  | None => false
+  end.
+
+(* RFC 1995: the RRs (owner, type, TTL, rdata) of a that are not RRs of b *)
+Definition zminus (a b : zone) : list rr := filter (fun r => negb (has_rr b r)) (body a).
+
+(* one difference sequence: old SOA, deleted RRs, new SOA, added RRs *)
+Definition diff_seq (a b : version) : list rr :=
+  soa_rr a :: zminus (v_rest a) (v_rest b) ++ soa_rr b :: zminus (v_rest b) (v_rest a).
+
+Fixpoint diff_seqs (v : version) (chain : list version) : list rr :=
+  match chain with
+  | [] => []
+  | w :: rest => diff_seq v w ++ diff_seqs w rest
+  end.
+
+(* the IXFR response taking the client from v0 through chain = [v1; ...; vn] *)
+Definition ixfr_stream (v0 : version) (chain : list version) : list rr :=
+  let vn := last chain v0 in
+  soa_rr vn :: diff_seqs v0 chain ++ [soa_rr vn].
+
+(* the AXFR response for v (also the AXFR-style answer to an IXFR request) *)
+Definition axfr_stream (v : version) : list rr := soa_rr v :: body (v_rest v) ++ [soa_rr v].
+
+(* zones are compared as finite maps *)
+Definition zeq (a b : zone) : Prop := forall k, look a k = look b k.
+
+Definition chain_ok (v0 : version) (chain : list version) : Prop :=
+  chain <> [] /\ version_wf v0 /\ Forall version_wf chain /\
+  (forall v, In v (v0 :: removelast chain) -> v_serial v <> v_serial (last chain v0)) /\
+  serial_lt (v_serial (last chain v0)) (v_serial v0) = false.
+
+(* any division of a record stream into TCP messages with acceptable headers; the first message
+   carries at least one record; later ones may be empty *)
+Definition chunking (rdt : Z) (stream : list rr) (ws : list wmsg) : Prop :=
+  Forall (header_ok rdt) ws /\ concat (map w_records ws) = stream /\
+  match ws with w :: _ => w_records w <> [] | [] => False end.
